@@ -368,6 +368,11 @@ class FileSim:
         if k in MUTATING:
             self.mutated.append((k, op[1]))
 
+    def dirty(self):
+        """Does some library theory differ (content or imports) from the pristine tree?"""
+        return any(c != CONTENT[n] for n, c in self.content.items()) or \
+            any(i != IMPORTS[n] for n, i in self.imports.items())
+
     def limit_exists(self, name, limit):
         if limit is None or limit == 'start':
             return True
@@ -556,7 +561,7 @@ def run_case(case, H, scratch=None, record=True):
     ops, final = decode(case)
     case = {'ops': ops, 'final': final}
     key = canon(case)
-    validate(ops)      # against the simulated file state, before spending a subprocess
+    sim = validate(ops)      # against the simulated file state, before spending a subprocess
     uses_files = any(o[0] in FILE_OPS for o in ops)
 
     failed = False
@@ -573,10 +578,11 @@ def run_case(case, H, scratch=None, record=True):
                 res = call_worker({'mode': 'history', 'ops': ops, 'final': final}, root)
                 if res is None:
                     refs = None
-                elif any(o[0] in MUTATING for o in ops):
+                elif sim.dirty():
                     refs = fetch_refs([final], root=root)      # the state the history left behind
                 else:
-                    refs = fetch_refs([final])                 # cycle / broken files do not touch library theories
+                    # library theories as in the pristine tree (only touched / restored / cycle and broken files)
+                    refs = fetch_refs([final])
                 scratch.reset()
             else:
                 res = call_worker({'mode': 'history', 'ops': ops, 'final': final}, REPO)
@@ -799,7 +805,7 @@ PLAN = [('imports', None), ('file', 'insert'), ('recovery', None), ('loads', Non
 
 
 def shards(tier):
-    k, per = (16, 3) if tier == 'quick' else (48, 25)
+    k, per = (16, 2) if tier == 'quick' else (48, 20)
     big = [t for t in THEORIES if depends_on_real(t)]
     fresh = [t for t in THEORIES if not depends_on_real(t)] + big
     out = []
@@ -858,14 +864,23 @@ def run_shard(desc, seed, tier, H):
         except WorkerFailure:
             pass        # every case asks again on its own
     scratch = Scratch()
+    timing = os.environ.get('C12_TIMING')
+    import time
+    t_start = time.time()
     try:
         for c in cases:
+            t0 = time.time()
             try:
                 run_case(c, H, scratch=scratch)
             except CaseInvalid:
                 H.note('generated_case_invalid')
+            if timing:
+                sys.stderr.write('C12_TIMING shard %d case %.1fs %s\n' % (desc['i'], time.time() - t0, canon(c)[:160]))
     finally:
         scratch.close()
+    if timing:
+        sys.stderr.write('C12_TIMING shard %d total %.1fs (%d cases, %d subprocesses)\n' % (
+            desc['i'], time.time() - t_start, len(cases), _n_calls[0]))
     if desc.get('tier') != 'quick' and desc['i'] == 0:
         H.mark_exhaustive("the empty history ('fresh process, load_theory(T)') for every theory T of the library")
     import resource
